@@ -128,8 +128,13 @@ def eval_format(case):
         if case.get("formatter"):
             fm = case["formatter"]
             dargs = _args_from_case(fm.get("default_args"))
-            f = URLFormatter(base_url=fm.get("base", base), path=fm.get("path"), args=dargs, fragment=fm.get("fragment"))
-            res = f.format(base_url=base if fm.get("base") is None else None, path=path, args=args, fragment=fragment, ext=ext)
+            if fm.get("subclass"):
+                # the documented subclassing style: BASE_URL class attribute instead of the constructor argument
+                cls = type("F", (URLFormatter,), {"BASE_URL": fm.get("base") if fm.get("base") is not None else base})
+                f = cls(path=fm.get("path"), args=dargs, fragment=fm.get("fragment"))
+            else:
+                f = URLFormatter(base_url=fm.get("base", base), path=fm.get("path"), args=dargs, fragment=fm.get("fragment"))
+            res = f.format(base_url=(base if fm.get("base") is None and not fm.get("subclass") else None), path=path, args=args, fragment=fragment, ext=ext)
             eff_base = base if fm.get("base") is None else fm["base"]
             eff_path = path if path is not None else fm.get("path")
             eff_frag = fragment if fragment is not None else fm.get("fragment")
@@ -140,7 +145,7 @@ def eval_format(case):
                 eff_args.update(args)
             else:
                 eff_args = args
-            res2 = f(base_url=base if fm.get("base") is None else None, path=path, args=args, fragment=fragment, ext=ext)
+            res2 = f(base_url=(base if fm.get("base") is None and not fm.get("subclass") else None), path=path, args=args, fragment=fragment, ext=ext)
             if res2 != res:
                 out.append(("C20/formatter-call", "__call__ gives %r, format gives %r" % (res2, res)))
         else:
@@ -298,7 +303,7 @@ def _format_strategy(tier):
     frag = st.sampled_from([None, None, "f", "#f", "##f", "", "a b", "/route?x=1"])
     formatter = st.one_of(st.none(), st.none(), st.fixed_dictionaries({
         "base": st.sampled_from([None, "http://default.org/"]), "path": st.sampled_from([None, "def/p"]),
-        "default_args": st.one_of(st.none(), dict_args), "fragment": st.sampled_from([None, "dfrag"])}))
+        "default_args": st.one_of(st.none(), dict_args), "fragment": st.sampled_from([None, "dfrag"]), "subclass": st.booleans()}))
 
     def mk(v):
         base_, path_, args_, ext_, frag_, fm = v
